@@ -355,7 +355,10 @@ class Interp:
             return VI(r, a.w, a.ok, max(0, a.lw - k), a.hi, const=None if a.const is None else a.const >> k, okl=a.okl)
         if isinstance(op, ast.Mod):
             if b.const is None:
-                s.undef = z3.Or(s.undef, z3.And(ok, b.v == 0))
+                # documented (docs/source/supported.rst): "Modulo operator only works with 2^n
+                # values" - any other modulus value is outside the documented domain
+                pow2 = z3.And(b.v != 0, (b.v & (b.v - 1)) == 0)
+                s.undef = z3.Or(s.undef, z3.And(ok, z3.Not(pow2)))
                 return VI(z3.URem(a.v, b.v), w, ok, 0, b.hi)
             m = b.const
             if m <= 0:
